@@ -8,15 +8,24 @@ COMMON = dict(src=SRC, env=["vp_alloc.c", "vp_libc.c"], units=["hwloc/bitmap.c",
               stubs=["seed environment stubs of vp_seed.h", "get_allowed_resources hook: writes arbitrary allowed sets"],
               assumptions=["allocation never fails"])
 HARNESSES = [
-  dict(COMMON, name="allow", entry="h_allow", encoded=["hwloc_topology_allow"], tiers={"quick": {}, "thorough": {}},
-       bounds="seed S4 with/without INCLUDE_DISALLOWED; cpuset/nodeset NULL or any subset of 8 bits; any 64-bit flag word; THISSYSTEM, loaded state, hook presence and what the hook reports symbolic", cost=30),
+  dict(COMMON, name="allow_incl", entry="h_allow", defines={"INCL": 1}, encoded=["hwloc_topology_allow"], tiers={"quick": {}, "thorough": {}},
+       bounds="seed S4 loaded with INCLUDE_DISALLOWED; cpuset/nodeset NULL or any subset of 8 bits; any 64-bit flag word; THISSYSTEM, loaded state, hook presence and what the hook reports symbolic", cost=30),
+  dict(COMMON, name="allow_noincl", entry="h_allow", defines={"INCL": 0}, encoded=["hwloc_topology_allow"], tiers={"quick": {}, "thorough": {}},
+       bounds="as allow_incl on seed S4 loaded without INCLUDE_DISALLOWED (every call must fail with EINVAL)", cost=30),
   dict(COMMON, name="infos", entry="h_infos", encoded=["hwloc_modify_infos", "hwloc__add_info", "hwloc__add_info_unique", "hwloc__replace_infos", "hwloc__remove_infos", "hwloc__realloc_infos"], tiers={"quick": {}, "thorough": {}}, unwind=8,
        bounds="arbitrary table of <= 3 pairs over a 3-string pool (duplicates allowed); any operation word; name/value from the pool or NULL", cost=30),
   dict(COMMON, name="infos_growth", entry="h_infos_growth", encoded=["hwloc__add_info", "hwloc__realloc_infos", "hwloc__move_infos"], tiers={"quick": {}, "thorough": {}}, unwind=12, unwindset=seed_uw(**{"strcmp.0": 4, "strlen.0": 4, "strdup.0": 4, "realloc.0": 40}),
        bounds="concrete growth from an empty array to 9 pairs, then a move into another array"),
-  dict(COMMON, name="misc_group_args", entry="h_misc_group_args", encoded=["hwloc_topology_insert_misc_object", "hwloc_topology_alloc_group_object", "hwloc_topology_insert_group_object (argument phase)", "hwloc_insert_object_by_parent", "hwloc_topology_reconnect"],
-       remove_bodies=["hwloc_free_unlinked_object"], goto_instrument=[["--generate-function-body", "hwloc_free_unlinked_object"]],
-       tiers={"quick": {}, "thorough": {}}, bounds="seed S1; loaded state and Misc/Group filters symbolic; Group cpuset absent or any subset of 8 bits; only refusal paths of insert_group", cost=30),
+  dict(COMMON, name="misc_args", entry="h_misc_group_args", defines={"WHICH": 0}, encoded=["hwloc_topology_insert_misc_object", "hwloc_insert_object_by_parent", "hwloc_topology_reconnect"],
+       tiers={"quick": {}, "thorough": {}}, bounds="seed S1; loaded state and Misc filter symbolic; one Misc below PU0", cost=30),
+  dict(COMMON, name="group_refused_0", entry="h_misc_group_args", defines={"WHICH": 1, "GC": 0}, encoded=["hwloc_topology_alloc_group_object", "hwloc_topology_insert_group_object (refusal paths)", "hwloc_free_unlinked_object"],
+       tiers={"quick": {}, "thorough": {}}, bounds="seed S1; loaded state symbolic; refusal case: Groups filtered out", cost=30),
+  dict(COMMON, name="group_refused_1", entry="h_misc_group_args", defines={"WHICH": 1, "GC": 1}, encoded=["hwloc_topology_alloc_group_object", "hwloc_topology_insert_group_object (refusal paths)", "hwloc_free_unlinked_object"],
+       tiers={"quick": {}, "thorough": {}}, bounds="seed S1; loaded state symbolic; refusal case: no set given (any filter)", cost=30),
+  dict(COMMON, name="group_refused_2", entry="h_misc_group_args", defines={"WHICH": 1, "GC": 2}, encoded=["hwloc_topology_alloc_group_object", "hwloc_topology_insert_group_object (refusal paths)", "hwloc_free_unlinked_object"],
+       tiers={"quick": {}, "thorough": {}}, bounds="seed S1; loaded state symbolic; refusal case: any cpuset outside the topology (any filter)", cost=30),
+  dict(COMMON, name="group_unloaded", entry="h_misc_group_args", defines={"WHICH": 1, "GC": 1, "LOADED": 0}, encoded=["hwloc_topology_alloc_group_object"],
+       tiers={"quick": {}, "thorough": {}}, bounds="seed S1 marked not loaded: alloc_group refuses"),
 ]
 OUTSIDE = ["successful Group insertion + reconnect, restrict on inner objects, distance-based grouping (tree surgery under symbolic control)", "arbitrary-length call histories except through the one-step argument on the asserted invariants",
            "cpukinds (C15), distances (C13), memattrs (C14) steps are decided by their own properties"]
